@@ -140,13 +140,14 @@ pub fn project(name: &str) -> Project {
             plain.insert("more".into(), Node::Link("sub".into()));
             let top = |x: &str| format!("{x}\nTXTPP#include sub/mid.txt\n-TXTPP#temp sub/top.tmp\n-tt {x}\n");
             let mid = |x: &str| format!("{x}\nTXTPP#include deep/leaf\n-TXTPP#temp ../mid.tmp\n-mm {x}\n+TXTPP#run echo x >> ../../m/mid\n");
-            let leaf = |x: &str| format!("{x}\n-TXTPP#temp ../../leaf.tmp\n-ll {x}\n-\n");
+            tfile(&mut plain, "sub/deep/out/keep", "keep\n");
+            let leaf = |x: &str| format!("{x}\n-TXTPP#temp ../../leaf.tmp\n-ll {x}\n-\n+TXTPP#temp out/leaf2.tmp\n+l2 {x}\n");
             Project {
                 name: name.into(),
                 sources: vec![
                     src("top.txt.txtpp", "top.txt", &["sub/top.tmp"], &[1], &top("T"), &top("T-edited")),
                     src("sub/mid.txtpp.txt", "sub/mid.txt", &["mid.tmp"], &[2], &mid("M"), &mid("M-edited")),
-                    src("sub/deep/leaf.txtpp", "sub/deep/leaf", &["leaf.tmp"], &[], &leaf("L"), &leaf("L-edited")),
+                    src("sub/deep/leaf.txtpp", "sub/deep/leaf", &["leaf.tmp", "sub/deep/out/leaf2.tmp"], &[], &leaf("L"), &leaf("L-edited")),
                 ],
                 plain,
                 sels: vec![
@@ -208,9 +209,11 @@ pub fn project(name: &str) -> Project {
         }
         "big" => {
             // an output of several writer buffers (interrupted runs can leave a partial one)
-            let big: String = (1..=3000).map(|i| format!("{i}\n")).collect();
+            // (output and temp target are both larger than 64 KiB, with non-periodic content)
+            let big: String = (1..=14000).map(|i| format!("{i}\n")).collect();
             tfile(&mut plain, "big.txt", &big);
-            let body = |x: &str| format!("{x}\nTXTPP#include big.txt\n-TXTPP#temp big.tmp\n-{x}\ntail\n");
+            let filler: String = (1..=9000).map(|i| format!("{i:x}.")).collect();
+            let body = |x: &str| format!("{x}\nTXTPP#include big.txt\n-TXTPP#temp big.tmp\n-{x}\n-{filler}\ntail\n");
             Project {
                 name: name.into(),
                 sources: vec![src("b.txt.txtpp", "b.txt", &["big.tmp"], &[], &body("head"), &body("HEAD2"))],
@@ -817,7 +820,7 @@ pub fn run_property(prop: &str, tier: &str) -> i32 {
     let plans: Vec<(&str, usize, bool)> = if thorough {
         vec![("solo", 4, prop == "C08"), ("chain", 3, false), ("errsrc", 3, false), ("nested", 3, false), ("empty", 4, false), ("aligned", 2, false), ("big", 2, false), ("dotdep", 3, false), ("afteronly", 3, false)]
     } else {
-        vec![("solo", 2, prop == "C08"), ("chain", 2, false), ("errsrc", 2, false), ("nested", 2, false), ("empty", 3, false), ("aligned", 2, false), ("dotdep", 2, false), ("afteronly", 2, false), ("big", 1, false)]
+        vec![("solo", 2, prop == "C08"), ("chain", 2, false), ("errsrc", 2, false), ("nested", 2, false), ("empty", 3, false), ("aligned", 2, false), ("dotdep", 2, false), ("afteronly", 2, false), ("big", 2, false)]
     };
     rep.set("bounds", json!(plans.iter().map(|(n, d, pf)| format!("{n}: depth {d}{}", if *pf { " + every byte-prefix" } else { "" })).collect::<Vec<_>>()));
     rep.set("operations", json!("RUN(mode in build/needed/verify/clean, input selection, trailing-newline on/off), EDIT(source i), TAMPER(generated path, 11 kinds)"));
